@@ -614,6 +614,14 @@ def _sstr_method(interp, v, name):
         def sw(prefix):
             if not isinstance(prefix, str):
                 raise Unsupported('startswith symbolic')
+            p0 = v.pieces[0] if v.pieces else ''
+            if isinstance(p0, str) and len(p0) >= len(prefix):
+                return p0.startswith(prefix)
+            if not isinstance(p0, str) and prefix:
+                # unknown pieces are non-empty runs over a known alphabet
+                a, lo, _hi = sstr._alphabet(p0)
+                if lo >= 1 and prefix[0] not in a:
+                    return False
             n = v.concrete_len()
             if n is not None and n < len(prefix):
                 return False
@@ -639,6 +647,13 @@ def _sstr_method(interp, v, name):
                 out.append(part)
             return sstr.simplify(sstr.SStr(out))
         return Builtin('join', join)
+    if name in ('ljust', 'rjust', 'center'):
+        def just(width, fill=' ', _n=name):
+            if not isinstance(width, int):
+                raise Unsupported('%s with symbolic width' % _n)
+            return sstr.pad_text(v, '%s%s%d' % (
+                fill, {'ljust': '<', 'rjust': '>', 'center': '^'}[_n], width))
+        return Builtin(name, just)
     if name == 'format':
         raise Unsupported('structured string used as a format string')
     return None
@@ -2066,6 +2081,15 @@ def external_modules(interp):
         'join': B('join', lambda it, *a: __import__('os').path.join(*a)),
     })
     E['os'] = _mod('os', {'path': E['os.path']})
+
+    def now(it):
+        # str(datetime.now()): an unknown single-line text (19 or 26 chars)
+        from . import sstr as _s
+        L = it.ctx.fresh('nowlen', 'int')
+        it.ctx.atoms.facts.append(z3.Or(L == 19, L == 26))
+        return _s.SStr([_s.Tok('now', mk(L), excl='\n\r!', first_nondigit=False)])
+    E['datetime.datetime'] = _mod('datetime.datetime', {'now': B('now', now)})
+    E['datetime'] = _mod('datetime', {'datetime': E['datetime.datetime']})
     E['re'] = _mod('re', _re_table(interp))
     E['itertools'] = _mod('itertools', {
         'product': B('product', lambda it, *seqs, **k: _product(it, seqs, k)),
